@@ -102,7 +102,7 @@ def duplicate_file(rng):
 def run(ctx):
     common.check_obligations(ctx, THEOREMS)
     rng = ctx.rng
-    nh = 1200 if ctx.thorough() else 120
+    nh = 12000 if ctx.thorough() else 120
     ev = 0
     id_cases = []
     for k in range(nh):
